@@ -73,7 +73,7 @@ CHECKS = {
         design="6/C20"),
 }
 
-BUILT = ["C01", "C02", "C03", "C04", "C06", "C08", "C09", "C10", "C11", "C12", "C13", "C14", "C15", "C16", "C17", "C18", "C19", "C20"]
+BUILT = ["C%02d" % i for i in range(1, 21)]
 CHECKS = {k: v for k, v in CHECKS.items() if k in BUILT}
 
 NOT_YET = {}
